@@ -1,12 +1,94 @@
-"""C02: decided on the scenario model (Model/Rules.v): theorems in Properties/C02.v about what acceptance guarantees;
-tie: whole validator vs model on conformant scenarios and on single-fault mutants owned by C02."""
-import scen_check
+"""C02: dependency cycles are always rejected; acyclic graphs are never flagged.
+Proof: Properties/C02.v (the cycle search of the model is sound and complete w.r.t. the declarative dependency
+relation Dep of Spec/DepRel.v; acceptance implies acyclicity).  Tie: whole validator vs model on every directed
+graph over <= 3 actions (sampled over 4-5) in every encoding of the edges, on random scenarios and on cycle mutants."""
+import random, itertools
+import scen_check, engine, scenario as S
+
 LEVEL = "proof"
-OWNERS = ("C02",)
+ENCODINGS = ["flat", "nested", "shared", "thread"]
+
+
+def graph_scenario(n, edges, enc, rng):
+    """actions 0..n-1 (+ a root action 99 used as spawn source), edge (a, b): a depends on b"""
+    t0 = {"id": 0, "name": 100, "attrs": [{"name": i, "kind": ("F", S.FIELD_TYPES[i])} for i in range(6)]}
+    op = lambda: {"incl": ("include", [0]), "defaults": [], "edges": [], "appends": None}
+    ids = list(range(n)) + [99]
+    s = {"parties": [{"id": 0, "name": 200}], "otypes": [t0],
+         "promises": [{"id": i, "name": 300 + i, "type": ("type", 0), "ctx": None} for i in ids],
+         "actions": [{"id": i, "name": 400 + i, "party": ("party", 0), "promise": ("promise", i), "ctx": None, "dep": None,
+                      "op": op(), "milestones": []} for i in ids],
+         "checkpoints": [], "groups": []}
+    tag = [0]
+
+    def cmp_(b):
+        tag[0] += 1
+        return ("cmp", ("act", ("action", b), [1]), "EQUALS", ("lit", "SInt", tag[0]))
+    cid = [0]
+
+    def new_cp(deps, ctx=None):
+        cid[0] += 1
+        s["checkpoints"].append({"id": cid[0], "alias": 500 + cid[0], "gate": rng.choice(S.GATES) if len(deps) > 1 else None, "deps": deps, "ctx": ctx})
+        return cid[0]
+    succ = {a: sorted(set(b for (x, b) in edges if x == a)) for a in range(n)}
+    indeg = {a: sum(1 for (x, b) in edges if b == a) for a in range(n)}
+    shared = {}
+    for a in range(n):
+        if not succ[a]:
+            continue
+        act = s["actions"][a]
+        if enc == "thread" and indeg[a] == 0:
+            gcp = new_cp([cmp_(99)] + [cmp_(b) for b in succ[a]])
+            gid = 10 + a
+            s["groups"].append({"id": gid, "name": 600 + gid, "ctx": None, "dep": ("checkpoint", gcp), "src": ("P", ("promise", 99), [4]), "var": 30 + a})
+            act["ctx"] = ("group", gid)
+            s["promises"][a]["ctx"] = ("group", gid)
+        elif enc == "nested" and len(succ[a]) >= 2:
+            inner = [new_cp([cmp_(b)]) for b in succ[a][1:]]
+            # a single-dependency checkpoint must be referenced; nest them under one gate
+            top = new_cp([cmp_(succ[a][0])] + [("ref", ("checkpoint", c)) for c in inner])
+            act["dep"] = ("checkpoint", top)
+        elif enc == "shared":
+            key = tuple(succ[a])
+            if key not in shared:
+                shared[key] = new_cp([cmp_(b) for b in succ[a]])
+            act["dep"] = ("checkpoint", shared[key])
+        else:
+            act["dep"] = ("checkpoint", new_cp([cmp_(b) for b in succ[a]]))
+    return s
+
+
+def extra(ctx, rng):
+    items = []
+    quick = ctx.tier == "quick"
+    graphs = []
+    for n in (1, 2, 3):
+        pairs = [(a, b) for a in range(n) for b in range(n)]
+        for mask in range(1 << len(pairs)):
+            graphs.append((n, [pairs[k] for k in range(len(pairs)) if mask >> k & 1]))
+    for n in (4, 5):
+        pairs = [(a, b) for a in range(n) for b in range(n) if a != b]
+        for _ in range(150 if quick else 3000):
+            k = rng.randint(1, min(len(pairs), 2 * n))
+            graphs.append((n, rng.sample(pairs, k)))
+    if quick:
+        small = [g for g in graphs if g[0] <= 2]
+        rest = [g for g in graphs if g[0] > 2]
+        graphs = small + rng.sample(rest, 260)
+    for (n, edges) in graphs:
+        for enc in (ENCODINGS if not quick else [rng.choice(ENCODINGS), "flat"]):
+            s = graph_scenario(n, edges, enc, rng)
+            if S.has_duplicate_composite(s):
+                continue
+            r = {"spelling": "mixed", "shuffle": rng.random() < 0.5, "descriptive": False, "seed": rng.randrange(1 << 30)}
+            doc = S.render(s, random.Random(r["seed"]), r["spelling"], r["shuffle"], False)
+            items.append(engine.Item(s, doc, "graph", mutator="%s n=%d edges=%s" % (enc, n, edges), owner="C02",
+                                     desc="digraph", render=r, group="%s|%d|%s" % (enc, n, sorted(edges))))
+    return items
 
 
 def run(ctx):
     scen_check.scenario_check(
-        ctx, owners=OWNERS, n_valid=60, n_mut=260,
-        rule="conformant scenarios (half with thread groups, two renderings each) and single-fault mutants owned by C02 (see harness/mutators.py), each mutant applied to a fresh conformant scenario; non-trivial = every mutant and every conformant scenario with a checkpoint; distinct by abstract scenario",
-        trusted=[], prop_files=PROP_FILES if "PROP_FILES" in globals() else None)
+        ctx, owners=("C02",), n_valid=40, n_mut=160, extra=extra,
+        rule="every directed graph (cyclic or not, self loops included) over 1-3 actions and sampled graphs over 4-5 actions, each edge set rendered in the encodings flat / nested checkpoint references / shared checkpoints / implicit through thread-group membership, random declaration order and spelling; plus conformant random scenarios and cycle mutants (back edge through a new checkpoint, a nested reference or an added dependency; self dependency); distinct by (encoding, graph) or abstract scenario",
+        trusted=["the set of encodings is chosen by the harness (import connections are covered by C16)"])
